@@ -74,6 +74,29 @@ static inline void mkopts(json_options& o, unsigned popts) {
 }
 ENTRIES(k_lim, M_CONTAINERS, CJ_OPTS_REAL)   // options_ has a virtual base: it must be really constructed (in place)
 ENTRIES(k_enc, M_NODOUBLE, CJ_OPTS_REAL)
+// compact JSON entry points specialised at COMPILE TIME to the two value kinds of a short sequence (the solver never sees the other visit functions)
+#define CJSEQ(NAME, M) KFN void NAME(const eev* ev, unsigned nev, char* buf, unsigned long cap, eres* r) { rawobj_u<cjson_t> e_u; cjson_t* e = &e_u.obj; new (&e->sink_) fsink{buf, 0, cap}; CJ_OPTS_REAL \
+    new (&e->stack_) std::vector<cjson_t::encoding_context>(); e->stack_.reserve(4); e->nesting_depth_ = 0; drive<M, false>(*e, ev, nev, r); }
+CJSEQ(k_cj_arr_null_null, 0x205u)
+CJSEQ(k_cj_arr_null_bool, 0x605u)
+CJSEQ(k_cj_arr_null_uint, 0x285u)
+CJSEQ(k_cj_arr_null_int, 0x305u)
+CJSEQ(k_cj_arr_null_string, 0xa05u)
+CJSEQ(k_cj_arr_bool_bool, 0x405u)
+CJSEQ(k_cj_arr_bool_uint, 0x485u)
+CJSEQ(k_cj_arr_bool_int, 0x505u)
+CJSEQ(k_cj_arr_bool_string, 0xc05u)
+CJSEQ(k_cj_arr_uint_uint, 0x85u)
+CJSEQ(k_cj_arr_uint_int, 0x185u)
+CJSEQ(k_cj_arr_uint_string, 0x885u)
+CJSEQ(k_cj_arr_int_int, 0x105u)
+CJSEQ(k_cj_arr_int_string, 0x905u)
+CJSEQ(k_cj_arr_string_string, 0x805u)
+CJSEQ(k_cj_obj_null, 0x268u)
+CJSEQ(k_cj_obj_bool, 0x468u)
+CJSEQ(k_cj_obj_uint, 0xe8u)
+CJSEQ(k_cj_obj_int, 0x168u)
+CJSEQ(k_cj_obj_string, 0x868u)
 // error-code constants of the real enums (so the harness never hard-codes enumerator values)
 KFN int k_enc_errc(unsigned fmt, unsigned which) {
     switch (fmt) {
